@@ -164,7 +164,7 @@ def search(ck, binpath, rounds):
     rc, out, err = ck.run_bin(binpath, ["search", "--seed", ck.seed, "--n", rounds, "--dir", ck.work, "--corpus", corpus,
                                         "--watchdog-ms", 20000], timeout=ck.scale(900, 3000))
     got_summary = False
-    for l in out.splitlines():
+    for l in jlines(out):
         if not l.strip().startswith("{"):
             continue
         v = json.loads(l)
@@ -187,7 +187,7 @@ def replay(ck, binpath, path):
             continue
         rc, out, err = ck.run_bin(binpath, ["one", "--case-json", json.dumps({"burst": case["burst"]}), "--dir", ck.work, "--repeat", 10,
                                             "--watchdog-ms", 15000], timeout=900)
-        for l in out.splitlines():
+        for l in jlines(out):
             if l.strip().startswith("{"):
                 vv = json.loads(l)
                 if "signature" in vv:
